@@ -178,7 +178,7 @@ Definition sanctioned_sites : list sanction := [
 
 Definition product_sites : list sanction := [
   mkSan "_umath.py" "_Elemwise._get_func_coords_data" "np.broadcast_to" "arg, matched_broadcast_shape" 1 RProduct;
-  mkSan "_compressed/compressed.py" "GCXS._reduce_calc" "np.arange" "x._compressed_shape[0], dtype=self.indptr.dtype" 1 RProduct;
+  mkSan "_compressed/compressed.py" "GCXS._reduce_calc" "np.arange" "x._compressed_shape[0], dtype=x.indptr.dtype" 1 RProduct;
   mkSan "_compressed/convert.py" "convert_to_flat" ".repeat" "increments[-1] | operations" 1 RProduct].
 
 Definition sanctioned (s : dsite) : bool := sanctioned_in sanctioned_sites s.
